@@ -51,3 +51,11 @@ Print Assumptions C08_format_constraint_evaluation_under_every_schedule.
 Theorem C08_sequential_model_is_fc_evaluation : forall c e, fc_evaluation c e = fc_evaluation_gen (single_of_cer c) e.
 Proof. exact fc_evaluation_is_gen. Qed.
 Print Assumptions C08_sequential_model_is_fc_evaluation.
+
+(* ---- tie T for the message builder: FormatConstraintTransformer.and_/or_/xor_composition are executed by the translator on every combination of truth
+   values and message modes with symbolic messages (Gen/Gen_fcmsg.v, regenerated from /repo on every run); the rows are what fc_compose -- the function
+   all theorems above are about -- computes, for all message texts. *)
+From Ahb Require Import Gen.Gen_fcmsg Proofs.C08_gen.
+Theorem C08_message_builder_is_the_regenerated_table : Forall fc_row_ok fc_rows /\ length fc_rows = 72.
+Proof. exact (conj fc_rows_ok fc_rows_complete). Qed.
+Print Assumptions C08_message_builder_is_the_regenerated_table.
